@@ -90,8 +90,6 @@ def run(prop, tier):
     t0 = time.time()
     b = core.fresh_dir(os.path.join(core.ROOT, 'build', 'C19'))
     planted = e4.selftest(b)
-    talker = e4.build_program(b, 'acf-can-talker')
-    listener = e4.build_program(b, 'acf-can-listener')
     cases = []      # (id, mode, count, frames(list per packet list))
     for cf, udp, fd in modes():
         A, R = alphabet(fd), reduced(fd)
@@ -115,81 +113,92 @@ def run(prop, tier):
         for tup in itertools.product(R[:6], repeat=2):
             cases.append(((cf, udp, fd), 1, list(tup)))
             cases.append(((cf, udp, fd), 2, list(tup) + list(reversed(tup))))
-    tscripts = []
-    for i, (mode, count, frames) in enumerate(cases):
-        cf, udp, fd = mode
-        tscripts.append(('t%d' % i, talker_args(cf, udp, fd, count), '-', ['C' + frame_bytes(fd, *[f[0], f[1], f[2]]).hex() for f in frames]))
-    tres = e4.run_batch(talker, tscripts)
     res = core.Result()
-    lscripts = []
-    pk = {}
-    nviol = {}
+    tot = {'tun': 0, 'scripts': 0}
 
     def viol(key, case_id, detail):
         e = res.viol.setdefault(('C19', key), {'count': 0, 'case': case_id, 'detail': detail, 'tag': ''})
         e['count'] += 1
-    for i, (mode, count, frames) in enumerate(cases):
-        cf, udp, fd = mode
-        st, eff, rep = tres['t%d' % i]
-        cls = e4.classify(st, rep)
-        mname = '%s/%s/%s' % (cf, 'udp' if udp else 'raw', 'fd' if fd else 'classic')
-        if cls:
-            viol('talker: %s' % cls, 'T|%d' % i, '%s count=%d frames=%s' % (mname, count, [describe(f, fd) for f in frames]))
-            continue
-        pkts = [bytes.fromhex(x[4:]) for x in eff.split(';') if x.startswith('PKT ')]
-        if len(pkts) != len(frames) // count:
-            viol('talker: wrong number of packets', 'T|%d' % i, '%s count=%d: %d frames gave %d packets' % (mname, count, len(frames), len(pkts)))
-            continue
-        # the control header announces exactly the ACF bytes that follow
-        for p in pkts:
-            off = 4 if udp else 0
-            if cf == 'tscf':
-                n, hl = e4.getf(p, 'Tscf', 'stream_data_length', off), 24
-            else:
-                n, hl = e4.getf(p, 'Ntscf', 'ntscf_data_length', off), 12
-            if n != len(p) - off - hl:
-                viol('talker: control header data length != ACF bytes that follow (%s)' % cf, 'T|%d' % i, '%s count=%d: announces %d, %d bytes follow' % (mname, count, n, len(p) - off - hl))
-        pk[i] = pkts
-        lscripts.append(('l%d' % i, listener_args(udp), 'fd' if fd else '-', ['D' + p.hex() for p in pkts]))
-    lres = e4.run_batch(listener, lscripts)
-    ntun = 0
-    for i, (mode, count, frames) in enumerate(cases):
-        if i not in pk:
-            continue
-        cf, udp, fd = mode
-        mname = '%s/%s/%s' % (cf, 'udp' if udp else 'raw', 'fd' if fd else 'classic')
-        st, eff, rep = lres['l%d' % i]
-        ntun += 1
-        cls = e4.classify(st, rep)
-        if cls:
-            viol('listener: %s' % cls, 'L|%d' % i, '%s count=%d frames=%s' % (mname, count, [describe(f, fd) for f in frames]))
-            continue
-        outf = [parse_frame(fd, bytes.fromhex(x[4:])) for x in eff.split(';') if x.startswith('CAN ')]
-        if len(outf) != len(frames):
-            viol('tunnel: number of frames', 'L|%d' % i, '%s count=%d: %d in, %d out' % (mname, count, len(frames), len(outf)))
-            continue
-        for k, (fin, fo) in enumerate(zip(frames, outf)):
-            cid, data, flags = fin
-            what = []
-            if (fo[0] & 0x1FFFFFFF) != (cid & 0x1FFFFFFF):
-                what.append('identifier')
-            if (fo[0] & EFF) != (cid & EFF):
-                what.append('EFF flag')
-            if (fo[0] & RTR) != (cid & RTR):
-                what.append('RTR flag')
-            if fo[1] != len(data):
-                what.append('length')
-            elif fo[3] != data:
-                what.append('data')
-            if fd and (fo[2] & (BRS | ESI | FDF)) != (flags & (BRS | ESI | FDF)):
-                for nm, bit in (('BRS', BRS), ('ESI', ESI), ('FDF', FDF)):
-                    if (fo[2] & bit) != (flags & bit):
-                        what.append('%s flag%s' % (nm, '' if k == 0 else ' (frame %d of the packet)' % (k % count + 1) if False else ''))
-            for w in what:
-                pos = 'single-frame packet' if count == 1 else ('first frame of a packet' if k % count == 0 else 'later frame of a multi-frame packet')
-                viol('tunnel: %s differs (%s, %s)' % (w, 'fd' if fd else 'classic', pos), 'L|%d' % i,
-                     '%s count=%d frame %d: in {%s} out {id=0x%x len=%d flags=0x%x}' % (mname, count, k, describe(fin, fd), fo[0], fo[1], fo[2]))
-    res.counters = {'cases': len(cases), 'transitions': len(tscripts) + len(lscripts), 'states': len(cases), 'nontrivial': ntun}
+
+    def tunnel(talker, listener, vtag):
+        tscripts = []
+        for i, (mode, count, frames) in enumerate(cases):
+            cf, udp, fd = mode
+            tscripts.append(('t%d' % i, talker_args(cf, udp, fd, count), '-', ['C' + frame_bytes(fd, *[f[0], f[1], f[2]]).hex() for f in frames]))
+        tres = e4.run_batch(talker, tscripts)
+        lscripts = []
+        pk = {}
+
+        for i, (mode, count, frames) in enumerate(cases):
+            cf, udp, fd = mode
+            st, eff, rep = tres['t%d' % i]
+            cls = e4.classify(st, rep)
+            mname = '%s/%s/%s' % (cf, 'udp' if udp else 'raw', 'fd' if fd else 'classic')
+            if cls:
+                viol('talker: %s' % cls, 'T|%d' % i, '%s count=%d frames=%s' % (mname, count, [describe(f, fd) for f in frames]))
+                continue
+            pkts = [bytes.fromhex(x[4:]) for x in eff.split(';') if x.startswith('PKT ')]
+            if len(pkts) != len(frames) // count:
+                viol('talker: wrong number of packets', 'T|%d' % i, '%s count=%d: %d frames gave %d packets' % (mname, count, len(frames), len(pkts)))
+                continue
+            # the control header announces exactly the ACF bytes that follow
+            for p in pkts:
+                off = 4 if udp else 0
+                if cf == 'tscf':
+                    n, hl = e4.getf(p, 'Tscf', 'stream_data_length', off), 24
+                else:
+                    n, hl = e4.getf(p, 'Ntscf', 'ntscf_data_length', off), 12
+                if n != len(p) - off - hl:
+                    viol('talker: control header data length != ACF bytes that follow (%s)' % cf, 'T|%d' % i, '%s count=%d: announces %d, %d bytes follow' % (mname, count, n, len(p) - off - hl))
+            pk[i] = pkts
+            lscripts.append(('l%d' % i, listener_args(udp), 'fd' if fd else '-', ['D' + p.hex() for p in pkts]))
+        lres = e4.run_batch(listener, lscripts)
+        for i, (mode, count, frames) in enumerate(cases):
+            if i not in pk:
+                continue
+            cf, udp, fd = mode
+            mname = '%s/%s/%s' % (cf, 'udp' if udp else 'raw', 'fd' if fd else 'classic')
+            st, eff, rep = lres['l%d' % i]
+            tot['tun'] += 1
+            cls = e4.classify(st, rep)
+            if cls:
+                viol('listener: %s' % cls, 'L|%d' % i, '%s count=%d frames=%s' % (mname, count, [describe(f, fd) for f in frames]))
+                continue
+            outf = [parse_frame(fd, bytes.fromhex(x[4:])) for x in eff.split(';') if x.startswith('CAN ')]
+            if len(outf) != len(frames):
+                viol('tunnel: number of frames', 'L|%d' % i, '%s count=%d: %d in, %d out' % (mname, count, len(frames), len(outf)))
+                continue
+            for k, (fin, fo) in enumerate(zip(frames, outf)):
+                cid, data, flags = fin
+                what = []
+                if (fo[0] & 0x1FFFFFFF) != (cid & 0x1FFFFFFF):
+                    what.append('identifier')
+                if (fo[0] & EFF) != (cid & EFF):
+                    what.append('EFF flag')
+                if (fo[0] & RTR) != (cid & RTR):
+                    what.append('RTR flag')
+                if fo[1] != len(data):
+                    what.append('length')
+                elif fo[3] != data:
+                    what.append('data')
+                if fd and (fo[2] & (BRS | ESI | FDF)) != (flags & (BRS | ESI | FDF)):
+                    for nm, bit in (('BRS', BRS), ('ESI', ESI), ('FDF', FDF)):
+                        if (fo[2] & bit) != (flags & bit):
+                            what.append('%s flag%s' % (nm, '' if k == 0 else ' (frame %d of the packet)' % (k % count + 1) if False else ''))
+                for w in what:
+                    pos = 'single-frame packet' if count == 1 else ('first frame of a packet' if k % count == 0 else 'later frame of a multi-frame packet')
+                    viol('tunnel: %s differs (%s, %s)' % (w, 'fd' if fd else 'classic', pos), 'L|%d' % i,
+                         '%s count=%d frame %d: in {%s} out {id=0x%x len=%d flags=0x%x}' % (mname, count, k, describe(fin, fd), fo[0], fo[1], fo[2]))
+
+        tot['scripts'] += len(tscripts) + len(lscripts)
+
+    talker = e4.build_program(b, 'acf-can-talker')
+    listener = e4.build_program(b, 'acf-can-listener')
+    tunnel(talker, listener, 'asan-O1')
+    # again as the project's default build compiles the examples: -O0, locals not auto-initialised (still under ASan+UBSan)
+    tunnel(e4.build_program(b, 'acf-can-talker', init='none'), e4.build_program(b, 'acf-can-listener', init='none'), 'O0')
+    ntun = tot['tun']
+    res.counters = {'cases': len(cases), 'transitions': tot['scripts'], 'states': len(cases), 'nontrivial': ntun}
     json_cases = os.path.join(b, 'cases.json')
     import json
     json.dump([[list(m), c, [[f[0], f[1].hex(), f[2]] for f in fr]] for m, c, fr in cases], open(json_cases, 'w'))
